@@ -126,6 +126,10 @@ CORPUS = [
     '<dtml-in seq size=3 next>\na\n<dtml-else>\nb\n</dtml-in>',
     '<dtml-in seq start=qs size=5>\n<dtml-var sequence-query>\n</dtml-in>',
     '<dtml-with x>\na\n</dtml-with>',
+    '<dtml-tree x prefix=p sort=k reverse nowrap single>\na\n</dtml-tree>',
+    '<dtml-tree expr="x" branches=kids id=ident url=u leaves=l header=h '
+    'footer=f expand=e assume_children skip_unauthorized urlparam="a=1">'
+    '<dtml-var p></dtml-tree>',
     '<dtml-with "x" mapping only>\na\n</dtml-with>',
     '<dtml-let a=b c="d + 1"\n  e=f>\n<dtml-var a>\n</dtml-let>',
     '<dtml-try>\na\n<dtml-except>\nb\n</dtml-try>',
@@ -184,6 +188,7 @@ def to_ssi(src, endstyle):
 
 
 def corpus():
+    import TreeDisplay  # noqa: F401  registers the tree tag
     out = []
     for i, s in enumerate(CORPUS):
         out.append(('HTML', 'dtml%d' % i, s))
@@ -274,6 +279,10 @@ BAD = [
     ('batch option without batch', 'HTML', '<dtml-in x overlap=1>a</dtml-in>'),
     ('batch option without batch', 'HTML', '<dtml-in x previous>a</dtml-in>'),
     ('batch option without batch', 'HTML', '<dtml-in x next>a</dtml-in>'),
+    ('non-simple prefix', 'HTML', '<dtml-tree x prefix="a-b">a</dtml-tree>'),
+    ('non-simple prefix', 'HTML', '<dtml-tree x prefix="1a">a</dtml-tree>'),
+    ('unknown attribute', 'HTML', '<dtml-tree x frob=1>a</dtml-tree>'),
+    ('missing end', 'HTML', '<dtml-tree x>a'),
     ('non-simple prefix', 'HTML', '<dtml-in x prefix="a-b">a</dtml-in>'),
     ('non-simple prefix', 'HTML', '<dtml-in x prefix="1a">a</dtml-in>'),
     ('non-simple prefix', 'HTML', '<dtml-in x\n prefix="a b">\n\n</dtml-in>'),
@@ -800,6 +809,7 @@ def run(case):
                                 {'source': src, 'outcome': o},
                                 {'fam': 'one', 'cls': cls, 'src': src})
     else:
+        import TreeDisplay  # noqa: F401  registers the tree tag
         for what, cls, src in BAD:
             o = judge(res, cls, src, 'gram')
             note(o, src)
